@@ -112,7 +112,7 @@ def run(ctx, res):
                 'after every step bytes-on-socket / unsent tail / queue length are compared with the Coq model, the stream with the '
                 'frames in put order, and select()-readability of the queue with qsize(); plus probes of the real Queue (random put/get; a 700-item backlog put by a producer thread while the consumer is not looking, '
                 'then drained only while select()-readable) and (thorough) '
-                'a threaded soak over a socketpair with a 4 KiB send buffer; non-trivial = a partial send or would-block happened')
+                'a threaded soak over a socketpair with a 4 KiB send buffer; and every interleaving of the primitives (superclass put/get/empty, send/recv of the wake-up byte) of a few concurrent put()/get() calls on the real Queue, threads released one primitive at a time (harness/qsched.py: five scenarios, all schedules), each judged on the real object and compared with the Coq queue model run on the same primitive trace; non-trivial = a partial send or would-block happened, or a queue schedule')
     cases = []
     if ctx.scale == 1:
         for k in range(ctx.n(5, 40)):
@@ -152,13 +152,47 @@ def run(ctx, res):
                           expr=rd.coq_events(evs), impl=obs, oracle=orc,
                           fsig=('C20: ' + orc.split(' (')[0].split(':')[0]) if orc else None,
                           sig=repr(evs) if partial else None))
+    # every interleaving of the sub-steps of a few put()/get() calls on the real Queue (harness/qsched.py): the property on
+    # the real object, and the Coq model of the queue run on the very trace of primitives the real threads performed
+    import qsched
+    for r in qsched.explore(max_runs=ctx.n(400, 3000)):
+        items, wake, got = r['impl']
+        impl = [len(items), wake, len(got)] + list(items) + sorted(got)
+        orc = r['failure']
+        res.count('queue_schedules')
+        res.count('queue_scenario:' + r['scenario'])
+        cases.append(dict(input=dict(probe='schedule', scenario=r['scenario'], schedule=r['schedule'], primitives=r['trace']),
+                          expr='run_queue [%s]' % '; '.join(r['model_events']), impl=('Q', impl), oracle=orc,
+                          fsig=('C20: queue schedule: ' + orc.split(' (')[0][:80]) if orc else None,
+                          sig=('Q', r['scenario'], tuple(r['schedule']))))
+
+    def cmp(c, m):
+        if isinstance(c['impl'], tuple) and c['impl'][0] == 'Q':
+            want = c['impl'][1]
+            n, w, g = m[0], m[1], m[2]
+            mm = [n, w, g] + m[3:3 + n] + sorted(m[3 + n:])
+            return None if mm == want else ('wake-up queue after schedule %r of %r: the real queue holds items/wake-up bytes/handed out %r, '
+                                             'the model %r' % (c['input']['schedule'], c['input']['scenario'], want, mm))
+        return None if m == c['impl'] else 'reactor state fingerprints differ at step %d' % next(
+            (i for i, (a, b) in enumerate(zip(c['impl'], m)) if a != b), -1)
     common.correspond(ctx, res, cases, IMPORTS,
-                      compare=lambda c, m: None if m == c['impl'] else 'reactor state fingerprints differ at step %d' % next(
-                          (i for i, (a, b) in enumerate(zip(c['impl'], m)) if a != b), -1),
-                      sample=lambda c: dict(events=c['input']['events'][:10], oracle=c['oracle']))
+                      compare=cmp,
+                      sample=lambda c: dict(events=(c['input'].get('events') or c['input'].get('primitives'))[:10], oracle=c['oracle']))
 
 
 def replay(ctx, case):
+    if case.get('probe') == 'schedule':
+        import qsched
+        sc = next(x for x in qsched.SCENARIOS if x[0] == case['scenario'])
+        s = qsched.Sched(sc[1], sc[2])
+        try:
+            out = s.run(case['schedule'])
+            r = qsched.judge(sc, out, s)
+            if out['deadlock']:
+                s.unblock()
+            return r
+        finally:
+            s.close()
     if case.get('probe') == 'queue':
         return rd.queue_probe(ctx.rng('q%d' % case['k']))
     if case.get('probe') == 'backlog':
